@@ -77,18 +77,40 @@ def run(spec, pid, tier, seed, replay=None):
         if t2.disagreements:
             tally.disagreements.append(("witness:" + k["id"], 0))
             tally.streams["witness:" + k["id"]] = (req, resp)
+    violation_lines = []
+    extra_fail = 0
     for g in spec["groups"]:
-        req, resp = core.pipeline("%s.%s" % (pid, g), [core.TGH, g, "--tier", tier, "--seed", str(seed)])
+        try:
+            req, resp = core.pipeline("%s.%s" % (pid, g), [core.TGH, g, "--tier", tier, "--seed", str(seed)])
+        except core.HarnessAbort as e:
+            if not spec.get("abort_is_violation"):
+                raise
+            p = core.write_replay(pid, {"op": e.case.get("op"), "in": e.case.get("in"), "process_exit": e.rc,
+                                        "what": "the process running the real code died on this input (abort, stack overflow or allocation failure)",
+                                        "seed": seed, "tier": tier, "stream": g})
+            violation_lines.append("VIOLATION property=%s replay=%s" % (pid, os.path.relpath(p, core.ROOT)))
+            extra_fail += 1
+            continue
         tally.consume(g, req, resp)
+        if spec.get("extra") and g == spec.get("extra_group"):
+            n, fails, enotes = spec["extra"](req, tier, seed)
+            tally.evaluations += n
+            notes.extend(enotes)
+            if fails:
+                extra_fail += len(fails)
+                p = core.write_replay(pid, {"what": "process-level run of the real CLI", "failure": fails[0],
+                                            "failing_runs": len(fails), "seed": seed, "tier": tier})
+                violation_lines.append("VIOLATION property=%s replay=%s" % (pid, os.path.relpath(p, core.ROOT)))
 
     # 4. verdict
-    violation_lines = []
     if tally.driver_errors:
         s, i, e = tally.driver_errors[0]
         print("ERROR: driver could not evaluate %d request(s), first: stream=%s id=%s %s" %
               (len(tally.driver_errors), s, i, e))
         return 2
-    if tally.violations:
+    if violation_lines:
+        pass
+    elif tally.violations:
         s, i, bad = tally.violations[0]
         rq, rs = tally.case(s, i)
         p = core.write_replay(pid, {"op": rq["op"], "in": rq["in"], "impl": rq["impl"], "meta": rq.get("meta"),
